@@ -8,7 +8,8 @@ from .. import sqlabs as S
 from ..core import AnalysisError, FuncInfo, Report, call_name, dotted, unparse
 from ..ctx import Ctx
 from .sqlutil import sql_of
-from .util import actual, calls_in, enclosing, forwards, kw
+from .util import (actual, calls_in, enclosing, forwards, kw,
+                   stale_yields)
 
 EXPLANATION = (
     "R12.1 the query that feeds the two-level itertools.groupby is ordered "
@@ -264,6 +265,25 @@ def per_trace_skip(rep: Report, ctx: Ctx, rule: str) -> None:
                        "the handler is inside the per-trace iteration"))
 
 
+def per_trace_fresh(rep: Report, ctx: Ctx, rule: str) -> None:
+    """(shared with C08)  What is yielded for a trace was built from that
+    trace: no path through the skip handler re-emits the previous one."""
+    jm = ctx.func("job_ids_to_eventid_to_otelevent_map")
+    jv = chain_var(ctx, jm, "P:job_id_streams")
+    loops = [l for l in ast.walk(jm.node) if isinstance(l, ast.For)
+             and any(isinstance(x, ast.Name) and x.id == jv
+                     for x in ast.walk(l.iter))]
+    stale = [s_ for l in loops for s_ in stale_yields(ctx, jm, l)]
+    rep.ob(rule, "a yielded trace map is the one built from the current "
+           "trace", not stale, fi=jm, node=stale[0][0] if stale else jm.node,
+           detail=(f"'{stale[0][1]}' can reach the yield without having been "
+                   "bound in this iteration (through the handler that skips "
+                   "a broken trace): the previous trace is delivered a "
+                   "second time" if stale else
+                   "every yielded value is bound on every path of the "
+                   "iteration that yields it"))
+
+
 def r122(rep: Report, ctx: Ctx) -> None:
     rep.rule("R12.2", "nested lazy groups are consumed in order", 14)
     chain_funcs = {f for f, _ in CHAIN} | {
@@ -335,6 +355,7 @@ def r122(rep: Report, ctx: Ctx) -> None:
         rep.ob("R12.2", f"{fi.short}: inner groups are consumed in place",
                ok, fi=fi, node=loops[0] if loops else fi.node, detail=why)
     per_trace_skip(rep, ctx, "R12.2")
+    per_trace_fresh(rep, ctx, "R12.2")
     conv = ctx.func("convert_otel_event_stream_to_event_id_to_otelevent_map")
     p0 = conv.params()[0]
     loops = [l for l in ast.walk(conv.node) if isinstance(l, ast.For)
